@@ -196,6 +196,26 @@ def dup_names(spec, draw, st):
     return "dup-names"
 
 
+def unnamed_consts(spec, draw, st):
+    """names are labels, not identities: converters leave constants unnamed and third-party exporters repeat result names ("custom") - every constant, or every result of
+    the CPU-resident operator kinds, gets one and the same name"""
+    consts = [t for t in spec["tensors"] if t.get("data") is not None]
+    mode = draw(st.sampled_from(["consts", "consts", "results", "both"]))
+    done = False
+    if mode in ("consts", "both") and len(consts) >= 2:
+        nm = draw(st.sampled_from(["", "const", "Const"]))
+        for t in consts:
+            t["name"] = nm
+        done = True
+    if mode in ("results", "both"):
+        res = [spec["tensors"][o["outputs"][0]] for o in spec["ops"] if o["outputs"] and o["outputs"][0] not in spec["outputs"] and o["outputs"][0] not in spec["inputs"]]
+        if len(res) >= 2:
+            for t in res:
+                t["name"] = "custom"
+            done = True
+    return "unnamed/%s" % mode if done else None
+
+
 def self_binary(spec, draw, st):
     c = [o for o in spec["ops"] if o["code"] in ("ADD", "SUB", "MUL", "MAXIMUM", "MINIMUM", "SQUARED_DIFFERENCE") and len(o["inputs"]) == 2
          and spec["tensors"][o["inputs"][0]].get("data") is None and spec["tensors"][o["inputs"][0]]["shape"] == spec["tensors"][o["outputs"][0]]["shape"]]
